@@ -143,6 +143,25 @@ SPECS = [
     ("cfgH2MinBufferSize", "command/src/config.rs", r"pub const H2_MIN_BUFFER_SIZE: u64 = ([^;]+);", "smallest buffer_size accepted when an HTTPS listener advertises h2"),
     ("cfgDefaultBufferSize", "command/src/config.rs", r"pub const DEFAULT_BUFFER_SIZE: u64 = ([^;]+);", "buffer_size when the file does not set it"),
     ("cfgMsgCounterBits", "command/src/config.rs", r"let mut count = 0u(\d+);", "width of the message id counter of generate_config_messages (after a repair to usize: change this pattern / the constant to 64)"),
+    # --- Answers (C02): the cause -> status literals of Mux::ready / Mux::timeout / end_stream_decision ---
+    ("ansConnRetries", "lib/src/server.rs", r"pub const CONN_RETRIES: u8 = ([^;]+);", "connection attempts per request before 503"),
+    ("ansRetriesExhausted", "lib/src/protocol/mux/mod.rs", r"BE::MaxConnectionRetries\(_\)\s+\| BE::MaxSessionsMemory\s+\| BE::MaxBuffers => \{\s+warn!\([^;]*\);\s+set_default_answer\(stream, front_readiness, (\d+), &answers\);", "MaxConnectionRetries | MaxSessionsMemory | MaxBuffers"),
+    ("ansNoBackend", "lib/src/protocol/mux/mod.rs", r"BE::Backend\(BackendError::NoBackendForCluster\(_\)\) => \{\s+set_default_answer\(stream, front_readiness, (\d+), &answers\);", "NoBackendForCluster"),
+    ("ansHostParse", "lib/src/protocol/mux/mod.rs", r"FrontendFromRequestError::InvalidCharsAfterHost\(_\) => (\d+),", "HostParse | InvalidCharsAfterHost"),
+    ("ansNoCluster", "lib/src/protocol/mux/mod.rs", r"FrontendFromRequestError::NoClusterFound\(_\) => (\d+),", "NoClusterFound"),
+    ("ansUnauthorized", "lib/src/protocol/mux/mod.rs", r"BE::RetrieveClusterError\(RetrieveClusterError::UnauthorizedRoute\) => \{\s+set_default_answer\(stream, front_readiness, (\d+), &answers\);", "UnauthorizedRoute"),
+    ("ansSniMismatch", "lib/src/protocol/mux/mod.rs", r"RetrieveClusterError::SniAuthorityMismatch \{ \.\. \},\s+\) => \{(?:\s*//[^\n]*)*\s+set_default_answer\(stream, front_readiness, (\d+), &answers\);", "SniAuthorityMismatch"),
+    ("ansRedirectDefault", "lib/src/protocol/mux/mod.rs", r"stream\.context\.redirect_status\.unwrap_or\((\d+)\)", "HttpsRedirect without a stashed status"),
+    ("ansBackendOther", "lib/src/protocol/mux/mod.rs", r"BE::Backend\(ref e\) => \{\s+error!\([^;]*\);\s+set_default_answer\(stream, front_readiness, (\d+), &answers\);", "any other BackendError"),
+    ("ansRetrieveOther", "lib/src/protocol/mux/mod.rs", r"BE::RetrieveClusterError\(ref other\) => \{\s+error!\([^;]*\);\s+set_default_answer\(stream, front_readiness, (\d+), &answers\);", "any other RetrieveClusterError"),
+    ("ansTcpNotFound", "lib/src/protocol/mux/mod.rs", r"BE::NotFound\(ref msg\) => \{\s+error!\([^;]*\);\s+set_default_answer\(stream, front_readiness, (\d+), &answers\);", "NotFound (TCP only)"),
+    ("ansPerIpLimit", "lib/src/protocol/mux/mod.rs", r"set_default_answer_with_retry_after\(\s+stream,\s+front_readiness,\s+(\d+),", "TooManyConnectionsPerIp"),
+    ("ansClientTimeout", "lib/src/protocol/mux/mod.rs", r"Some\(\"client_timeout\"\);\s+set_default_answer\(stream, front_readiness, (\d+), &answers\);", "front timer, H1 stream Idle"),
+    ("ansLinkTimeout", "lib/src/protocol/mux/mod.rs", r"StreamState::Link => \{(?:\s*//[^\n]*)*\s+let answers = answers_rc\.borrow\(\);\s+let stream = &mut self\.context\.streams\[stream_id\];\s+set_default_answer\(stream, front_readiness, (\d+), &answers\);", "front timer, stream in Link"),
+    ("ansFrontTimeoutLinked", "lib/src/protocol/mux/mod.rs", r"Some\(\"client_timeout_during_response\"\);\s+set_default_answer\(stream, front_readiness, (\d+), &answers\);", "front timer, Linked, response not started"),
+    ("ansBackendTimeout", "lib/src/protocol/mux/mod.rs", r"Some\(\"backend_timeout\"\);\s+set_default_answer\(stream, front_readiness, (\d+), &answers\);", "back timer, Linked, response not started"),
+    ("ansBackendClosedEarly", "lib/src/protocol/mux/shared.rs", r"\} else if stream\.front\.consumed \{\s+EndStreamAction::SendDefault\((\d+)\)", "end_stream_decision: no response, request already consumed"),
+    ("ansFrontParse", "lib/src/protocol/mux/h1.rs", r"incr!\(names::http::FRONTEND_PARSE_ERRORS\);\s+let answers = answers_rc\.borrow\(\);\s+set_default_answer\(stream, &mut self\.readiness, (\d+), &answers\);", "H1 request parse error"),
 ]
 
 # byte tables: (lean name, file, regex with ONE group = comma-separated byte list)
